@@ -32,8 +32,8 @@
            mismatch while (1) holds is DRIFT - reported, never a violation. *)
 EXTENDS IvTimerHeap, Json, IOUtils
 
-VARIABLES l, mon, hp, sid
-tvars == <<l, mon, hp, sid>>
+VARIABLES l, st, sid
+tvars == <<l, st, sid>>
 
 Log == ndJsonDeserialize(IOEnv.TRACE)
 N == Len(Log)
@@ -147,26 +147,32 @@ LStep(p, e, ln) ==
          [] OTHER -> p
 
 -----------------------------------------------------------------------------
-TInit == l = 1 /\ mon = MonInit /\ hp = HpInit /\ sid = "none"
+(* one consumed line.  A state-level operator on purpose: TLC caches the LET
+   definitions of operators but re-evaluates those of an action at every
+   reference. *)
+Step(s, e, ln, id) ==
+  LET m1 == MonStep(s.m, e)
+      lp == LockMode /\ HasProj(e)
+      ok == ~lp \/ RealOK(m1, e)
+      m2 == IF lp THEN Chk(m1, TRUE, ok, "C05:heap") ELSE m1
+      p1 == IF LockMode THEN (IF ok THEN LStep(s.p, e, ln) ELSE Lost(s.p, ln)) ELSE s.p
+      r  == [m |-> m2, p |-> p1]
+  IN IF e.e = "End" /\ PrintT("VERDICT " \o ToJson([id |-> id, why |-> e.why, viols |-> m2.viols,
+                                                     seen |-> m2.seen, drift |-> p1.dl,
+                                                     steps |-> p1.steps, ops |-> m2.ops,
+                                                     fires |-> m2.fires]))
+     THEN r ELSE r
+
+StInit == [m |-> MonInit, p |-> HpInit]
+
+TInit == l = 1 /\ st = StInit /\ sid = "none"
 
 TNext ==
   /\ l <= N
   /\ l' = l + 1
-  /\ LET e == Log[l] IN
-     IF e.e = "Reset"
-     THEN mon' = MonInit /\ hp' = HpInit /\ sid' = e.id
-     ELSE LET m1 == MonStep(mon, e)
-              ok == ~(LockMode /\ HasProj(e)) \/ RealOK(m1, e)
-              m2 == IF LockMode /\ HasProj(e) THEN Chk(m1, TRUE, ok, "C05:heap") ELSE m1
-              p1 == IF LockMode THEN (IF ok THEN LStep(hp, e, l) ELSE Lost(hp, l)) ELSE hp
-          IN /\ mon' = m2
-             /\ hp' = p1
-             /\ sid' = sid
-             /\ (e.e = "End") =>
-                  PrintT("VERDICT " \o ToJson([id |-> sid, why |-> e.why, viols |-> m2.viols,
-                                                seen |-> m2.seen, drift |-> p1.dl,
-                                                steps |-> p1.steps, ops |-> m2.ops,
-                                                fires |-> m2.fires]))
+  /\ IF Log[l].e = "Reset"
+     THEN st' = StInit /\ sid' = Log[l].id
+     ELSE st' = Step(st, Log[l], l, sid) /\ sid' = sid
 
 TSpec == TInit /\ [][TNext]_tvars
 (* violated <=> the whole trace was consumed *)
